@@ -26,7 +26,7 @@ def select_quick(specs, budget_s):
     chosen, total = [], 0.0
     # findings first (they decide known-finding reporting), then one representative per family, then fill up
     for s in cands:
-        if str(s.get("expect", "")).startswith("finding"):
+        if str(s.get("expect", "")).startswith("finding") or s.get("priority"):
             chosen.append(s)
             total += s.get("measured_s", 30)
     reps = []
@@ -48,11 +48,17 @@ def select_quick(specs, budget_s):
             break
         chosen.append(s)
         total += s.get("measured_s", 30)
+    # a property whose quick-tier harnesses are few still gets its cheapest thorough harnesses within the budget
+    for s in sorted([s for s in specs if s.get("tier") == "thorough"], key=lambda s: s.get("measured_s") or 600):
+        if total + (s.get("measured_s") or 600) > budget_s:
+            break
+        chosen.append(s)
+        total += s.get("measured_s") or 600
     return chosen
 
 
 def run_spec(rep, pid, tier, budget_s=450, parallel=5, only=None):
-    specs = load(pid)
+    specs = [s for s in load(pid) if s.get("run", True) is not False and s.get("tier") != "none"]
     if only:
         specs = [s for s in specs if only(s)]
     if not specs:
@@ -63,7 +69,7 @@ def run_spec(rep, pid, tier, budget_s=450, parallel=5, only=None):
         m = s.get("measured_s", 60)
         jobs.append(dict(harness=s["harness"], where=s.get("where", "ext"),
                          timeout=int(max(s.get("timeout", 600), 4 * m + 240)), mem_gb=max(s.get("mem_gb", 8), 8) + 4,
-                         what=s.get("what", "")[:300],
+                         what=s.get("what", "")[:300], extra=s.get("extra"),
                          key=(s["expect"].split(":", 1)[1] if str(s.get("expect", "")).startswith("finding:") else "kani:" + s["harness"])))
         if s.get("bound"):
             rep.bound("%s: %s" % (s["harness"].split("::")[-1], s["bound"][:200]))
